@@ -38,6 +38,9 @@ pub enum Lop {
 	DropWithLiveTxn(u8),
 	/// close() is started (polled once) and abandoned, then close() is called again and awaited
 	CloseTwice(u8),
+	/// the owner takes a checkpoint and restores it while staying open (the restore rewrites
+	/// most of the directory): the directory must stay locked
+	CheckpointRestore(u8),
 }
 
 fn lop_str(o: &Lop) -> String {
@@ -51,6 +54,7 @@ fn lop_str(o: &Lop) -> String {
 		Lop::DropCloneElsewhere(i) => format!("drop-clone-of-{i}-on-plain-thread"),
 		Lop::DropWithLiveTxn(i) => format!("drop{i}-with-live-transaction"),
 		Lop::CloseTwice(i) => format!("close{i}-abandoned-then-close{i}"),
+		Lop::CheckpointRestore(i) => format!("checkpoint-and-restore{i}"),
 	}
 }
 
@@ -169,7 +173,27 @@ pub fn run_seq(ops: &[Lop]) -> Result<Option<(String, String)>, String> {
 				}
 				Lop::Close(id) => {
 					if let Some(mut w) = openers.remove(id) {
-						w.close().map_err(|e| ctx(format!("close: {e}")))?;
+						// while close() is still flushing and closing files the directory must stay locked:
+						// probe the lock at three points inside it (another opener admitted there would read
+						// and write the directory concurrently with the shutdown)
+						let early: std::rc::Rc<std::cell::RefCell<Vec<&'static str>>> = Default::default();
+						for point in ["close:before-memtable-flush", "close:before-wal-close", "close:before-directory-sync"] {
+							let (e, d) = (early.clone(), dir.clone());
+							surrealkv::verif::set_callback(
+								point,
+								Box::new(move || {
+									if lock_is_free(&d) {
+										e.borrow_mut().push(point);
+									}
+								}),
+							);
+						}
+						let r = w.close();
+						surrealkv::verif::clear_callbacks();
+						r.map_err(|e| ctx(format!("close: {e}")))?;
+						if let Some(p) = early.borrow().first() {
+							return Ok(Some(("lock-released-before-close-finished".into(), ctx(format!("the directory lock was already free at {p}, while close() was still writing to the directory")))));
+						}
 						owner = None;
 					}
 				}
@@ -339,6 +363,18 @@ pub fn run_seq(ops: &[Lop]) -> Result<Option<(String, String)>, String> {
 						owner = None;
 					}
 				}
+				Lop::CheckpointRestore(id) => {
+					if let Some(w) = openers.get_mut(id) {
+						let ck = fresh_dir("c19-ck");
+						let r = {
+							let _g = w.rt.as_ref().unwrap().enter();
+							w.tree().create_checkpoint(&ck).map(|_| ()).and_then(|_| w.tree().restore_from_checkpoint(&ck).map(|_| ())).map_err(|e| format!("{e}"))
+						};
+						let _ = std::fs::remove_dir_all(&ck);
+						r.map_err(|e| ctx(format!("checkpoint/restore: {e}")))?;
+						// ownership is unchanged
+					}
+				}
 				Lop::DropCloneElsewhere(id) => {
 					if let Some(w) = openers.get(id) {
 						let clone = w.tree().clone();
@@ -389,6 +425,11 @@ fn gen(maxlen: usize) -> Vec<Vec<Lop>> {
 		if o2 && !o1 && !ch {
 			cur.push(Lop::RaceOpen(1));
 			rec(maxlen, cur, true, false, ch, out);
+			cur.pop();
+		}
+		if o1 && !cur.iter().any(|o| matches!(o, Lop::CheckpointRestore(_))) {
+			cur.push(Lop::CheckpointRestore(1));
+			rec(maxlen, cur, o1, o2, ch, out);
 			cur.pop();
 		}
 		if o1 && !cur.iter().any(|o| matches!(o, Lop::DropCloneElsewhere(_))) {
@@ -507,6 +548,7 @@ pub fn replay(r: &J) -> i32 {
 			"drop1" => Lop::Drop(1),
 			"drop2" => Lop::Drop(2),
 			"child-open" => Lop::ChildOpen,
+			"checkpoint-and-restore1" => Lop::CheckpointRestore(1),
 			"drop1-with-live-transaction" => Lop::DropWithLiveTxn(1),
 			"close1-abandoned-then-close1" => Lop::CloseTwice(1),
 			"drop-clone-of-1-on-plain-thread" => Lop::DropCloneElsewhere(1),
